@@ -210,6 +210,12 @@ CmdCases == {
        "accept", "define-sort-parametric"),
   Case(Prelude \o <<L(<<A("assert-soft"), p, Kw(":id"), A("g1"), Kw(":weight"), Nm(3)>>), L(<<A("assert-soft"), Lt(x, y), Kw(":weight"), Nm(2)>>),
                    L(<<A("minimize"), SPlus(x, y)>>), L(<<A("maximize"), x>>), L(<<A("check-sat")>>)>>, "accept", "omt"),
+  \* objectives over bit-vectors: the :signed attribute decides the ORDER the objective is read in; :id names the goal
+  Case(Prelude \o <<Asrt(Ap("bvult", <<b, c>>)), L(<<A("maximize"), b>>), L(<<A("minimize"), c, Kw(":signed")>>), L(<<A("check-sat")>>)>>, "accept", "omt-bv-signed"),
+  Case(Prelude \o <<L(<<A("maximize"), b, Kw(":id"), A("goal1")>>), L(<<A("minimize"), c, Kw(":signed"), Kw(":id"), A("goal2")>>),
+                    L(<<A("minimize"), x, Kw(":id"), A("goal3")>>)>>, "accept", "omt-id"),
+  Case(Prelude \o <<L(<<A("minmax"), x, y>>), L(<<A("maxmin"), b, c, Kw(":signed")>>), L(<<A("minmax"), b, c, Kw(":id"), A("g2")>>),
+                    L(<<A("maxmin"), x, y, z>>)>>, "accept", "omt-minmax"),
   Case(Prelude \o <<L(<<A("set-option"), Kw(":produce-models"), A("true")>>), L(<<A("set-info"), Kw(":status"), A("sat")>>), Asrt(p),
                    L(<<A("check-sat")>>), L(<<A("get-value"), L(<<x, SPlus(x, y)>>)>>), L(<<A("get-model")>>), L(<<A("exit")>>)>>, "accept", "options-info-getvalue"),
   Case(Prelude \o <<Asrt(p), L(<<A("reset-assertions")>>)>>, "accept", "reset-assertions"),
